@@ -81,4 +81,10 @@ var propMeta = map[string]*PropMeta{
 		Real:  realS, Stub: stubS, Assumptions: commonAssumptions,
 		Probes: []string{"q.error"},
 	},
+	"C06": {
+		Level: "exploration", QuickSecs: 35, ThoroughSecs: 600, Recycle: 300,
+		Rule: "one case = one seeded plan: generated schema and dataset with a random storage split; 2-8 grouped queries, each issued at a simulated instant positioned relative to the table's period boundary (on it, +-1 ns, +-1 ms, mid-period, random) because coarse buckets are anchored at the moving until = ceil(now); grouping over every kind of dim subset (none, all, subsets incl. dims the table does not keep), period multiples {none,1,2,3,5,7,13, larger than the window}, field lists with _points, table fields and derived ratios/sums. Oracle = reference aggregator using only what the result source reports (asOf, until, resolution): row timestamps congruent to until modulo the period and distinct per key (disjoint periods); every row equals the aggregate of the raw accepted points whose group key projects onto the row key and whose native period end lies in (T-P, T]; every accepted point with a native period end inside (asOf, until] is covered by exactly one row (_points exact, missing rows reported). Non-trivial = a query with at least one point inside its window was compared.",
+		Real:  realS, Stub: stubS, Assumptions: commonAssumptions,
+		Probes: []string{"q.error"},
+	},
 }
